@@ -12,6 +12,10 @@ import (
 
 // ExecLocal exec local
 func (c *Coins) ExecLocal(tx *types.Transaction, receipt *types.ReceiptData, index int) (dbSet *types.LocalDBSet, err error) {
+	// 执行失败的交易不产生本地数据, 与 ExecDelLocal 保持一致
+	if receipt.GetTy() != types.ExecOk {
+		return &types.LocalDBSet{}, nil
+	}
 	dbSet, err = c.execLocal(tx, receipt, index)
 	if err != nil || dbSet == nil { // 不能向上层返回LocalDBSet为nil, 以及error
 		return &types.LocalDBSet{}, nil
